@@ -18,3 +18,26 @@ MISFIT_CALLS = [
     "s1.getDate()", "i1.getHours()", "li.getFullYear()", "n.getMinutes()", "s1.getDate() == 1 || true", "duration(s1).getHours()", "timestamp(s1).getHours()",
     "timestamp(i1).getHours('x')", "s1.getDate() == 1 && false", "true ? 1 : s1.getDate()",
 ]
+
+# built-ins given *constant* arguments that a fast path could pre-process while the program is built (regular expressions, zone
+# names, conversions of literals), and zone names that are not zones (directories and odd entries of the tz database, empty, paths)
+CONSTANT_ARGS = [
+    r"s1.matches('\ud800')", r"matches(s1, '\ud800')", r"s1.matches('\udfff' + '')", "s1.matches('(')", "s1.matches('[a-')", "matches(s1, '*')", r"s1.matches('\\')",
+    r"s1.matches('\x00')", "s1.matches('(?P<n>a)(?P<n>b)')", "s1.matches('a{2,1}')", r"'\ud800'.matches(s1)", r"s1.matches('\ud800') || true", r"false && s1.matches('(')",
+    r"s1.contains('\ud800')", r"s1.startsWith('\udc00')", r"s1.endsWith('\ud800')", r"size('\ud800') == i1", r"bytes('\ud800')", r"string(b'\xff')", r"int('\ud800')", r"double('\ud800')",
+    "int('1e3')", "int('')", "uint('-0')", "double('')", "double('1_0')", "int('١٢')", "timestamp('')", "duration('')", "duration('s')", "duration('1')", "timestamp('2020-13-01T00:00:00Z')",
+    "timestamp('2020-01-01T00:00:00Z').getHours('America')", "timestamp('2020-01-01T00:00:00Z').getHours('')", "timestamp('2020-01-01T00:00:00Z').getHours('posix')",
+    "timestamp('2020-01-01T00:00:00Z').getHours('..')", "timestamp('2020-01-01T00:00:00Z').getHours('/etc/passwd')", "timestamp('2020-01-01T00:00:00Z').getDate('Etc')",
+    "timestamp('2020-01-01T00:00:00Z').getDate('zone.tab')", "timestamp('2020-01-01T00:00:00Z').getMinutes('+25:00')", "timestamp('2020-01-01T00:00:00Z').getMinutes('-00:60')",
+    "timestamp('2020-01-01T00:00:00Z').getDayOfYear('America/')", "timestamp('2020-01-01T00:00:00Z').getFullYear('US')", "timestamp('2020-01-01T00:00:00Z').getSeconds('UTC ')",
+    "timestamp('2020-01-01T00:00:00Z').getHours('America') == 1 || true", r"timestamp('2020-01-01T00:00:00Z').getHours('\x00')",
+]
+
+# protobuf-style message literals on names that are not messages, with duplicate or odd fields, and conversions applied to them
+MESSAGE_LITERALS = [
+    "Foo{a: 1, a: 2}", "Foo{a: 1}", "Foo{}", "i1{a: 1}", "s1{}", "google.protobuf.Struct{a: 1, a: 2}", "int(google.protobuf.Struct{a: 1})", "string(google.protobuf.Struct{a: 1})",
+    "google.protobuf.Int32Value{value: s1}", "google.protobuf.Int32Value{nope: 1}", "google.protobuf.Int32Value{value: 1, value: 2}", "google.protobuf.StringValue{value: i1}",
+    "google.protobuf.BoolValue{value: 1}", "google.protobuf.Duration{seconds: s1}", "google.protobuf.Timestamp{seconds: s1}", "google.protobuf.Value{}", "google.protobuf.ListValue{values: i1}",
+    "google.protobuf.Struct{a: 1}.a", "google.protobuf.Struct{a: 1} == google.protobuf.Struct{a: 1}", "size(google.protobuf.Struct{a: 1})", "Foo{a: 1, a: 2} == 1 || true",
+    "google.protobuf.Any{}", "dyn(Foo{a: 1})", "type(Foo{a: 1})", "has(Foo{a: 1}.a)", "Foo{a: 1}.a", "[Foo{a: 1}]", "{1: Foo{a: 1}}",
+]
